@@ -4,6 +4,9 @@ import (
 	"fmt"
 )
 
+// unknownCharacter is a character code that is no token of the grammar.
+const unknownCharacter = 1
+
 type Lexer struct {
 	Scanner
 	program []Statement
@@ -18,6 +21,12 @@ func (l *Lexer) Lex(lval *yySymType) int {
 
 	if err != nil {
 		l.Error(err.Error())
+	}
+
+	if lval.token.Token == Uncategorized {
+		// The parser takes a negative number for "no token" and would pass over it. A token that belongs
+		// to no category is handed over as a character the grammar does not know: a syntax error.
+		return unknownCharacter
 	}
 
 	return lval.token.Token
